@@ -1,7 +1,7 @@
 """C03 — wat2c C code behaves like the WebAssembly module it was translated from."""
 import concurrent.futures as cf, json, os, re, shutil, subprocess
 from lib import vlib
-from extract import c03_rows as R, c03_cdriver as D
+from extract import c03_rows as R, c03_cdriver as D, c03_templates as T
 
 PROP = "C03"
 META = {
@@ -320,7 +320,7 @@ def whole_program(ctx, h, name, path, flavours):
         ok, log = D.compile_c(d, fl, exe, sources=("mod.c", "host.c"))
         if not ok:
             raise vlib.InfraError("compiling whole module %s with %s failed:\n%s" % (name, fl, log[-2000:]))
-        env = dict(os.environ, UBSAN_OPTIONS="print_stacktrace=0:halt_on_error=1")
+        env = dict(os.environ, UBSAN_OPTIONS="print_stacktrace=0:halt_on_error=0")
         try:
             p = subprocess.run([os.path.join(d, exe)], cwd=d, stdout=subprocess.PIPE, stderr=subprocess.PIPE, text=True, timeout=300, env=env)
             cout, cerr, crc = p.stdout, p.stderr, p.returncode
@@ -357,3 +357,185 @@ def shipped_host_links(ctx, prog_dir):
             return False, " ".join(c[:2]) + ": " + " | ".join(l for l in p.stdout.splitlines() if "undefined reference" in l or "error" in l)[:600]
     p = subprocess.run([os.path.join(d, "myapp")], cwd=d, stdout=subprocess.PIPE, stderr=subprocess.STDOUT, text=True, timeout=120)
     return True, p.stdout
+
+
+# ------------------------------------------------------------------ Lean side
+def regenerate_templates(ctx, mods):
+    """cut the C of every integer / integer-memory row out of the generated C, write Gen/C03Templates.lean"""
+    tpls = []
+    for tag in ("int", "mem"):
+        m = mods[tag][0]
+        want = [r for r in m.rows if all(p in ("i32", "i64") for p in r.params) and r.result in (None, "i32", "i64")]
+        tpls += T.extract(os.path.join(m.dir, "mod.c"), want, PREFIX)
+    names = T.write_lean(tpls, os.path.join(vlib.LEAN, "WaVerif", "Gen", "C03Templates.lean"))
+    return tpls, names
+
+
+def model_correspondence(ctx, model, mods, modelled, dist):
+    """the regenerated C functions run by the Lean C semantics vs the compiled C, and the Lean WebAssembly spec vs wazero"""
+    lines, meta = [], []
+    for tag, mode in (("int", "n"), ("mem", "m")):
+        m, calls, ref, outs = mods[tag]
+        for i, (r, args) in enumerate(calls):
+            if r.name in modelled:
+                lines.append("%s %s %s %s" % (r.name, mode, r.key, " ".join(hx(a) for a in args)))
+                meta.append((r, args, ref[i], dict((fl, outs[fl][i]) for fl in outs)))
+    _, mo, _ = ctx.run_bin(model, input_text="\n".join(lines) + "\n", timeout=1800)
+    mo = mo.splitlines()
+    if len(mo) != len(lines):
+        ctx.proof["broken"].append({"theorem": "correspondence C03", "why": "model driver printed %d lines for %d ops" % (len(mo), len(lines))})
+        return
+    ctx.corr["lines"] += len(lines)
+    st = {"model_value": 0, "model_ub": 0, "model_trap": 0, "ub_flagged_by_sanitizer": 0, "ub_not_flagged": 0, "wasm_spec_compared": 0}
+    nbroken = 0
+    for (r, args, ref, couts), l in zip(meta, mo):
+        cm, _, wm = l.partition(" | ")
+        # WebAssembly spec (Base/WasmNum) vs wazero
+        if wm != "-":
+            st["wasm_spec_compared"] += 1
+            refn = "trap" if ref.startswith("trap") else ref
+            if wm != refn:
+                ctx.corr["diffs"] += 1
+                nbroken += 1
+                if nbroken <= 10:
+                    ctx.proof["broken"].append({"theorem": "correspondence: Base/WasmNum spec vs wazero", "why": "%s(%s): wazero %s, Lean spec %s" % (r.ins, args, ref, wm)})
+        # C semantics model vs compiled C
+        if cm == "stuck" or cm.startswith(("no-such", "bad")):
+            ctx.corr["diffs"] += 1
+            nbroken += 1
+            if nbroken <= 10:
+                ctx.proof["broken"].append({"theorem": "correspondence: C model", "why": "%s(%s): model is %s" % (r.ins, args, cm)})
+        elif cm == "ub":
+            st["model_ub"] += 1
+            for fl, c in couts.items():
+                if "ubsan" in fl:
+                    st["ub_flagged_by_sanitizer" if c.startswith(("ub ", "sig ")) else "ub_not_flagged"] += 1
+        else:
+            st["model_trap" if cm == "trap" else "model_value"] += 1
+            want = "sig ABRT" if cm == "trap" else cm
+            for fl, c in couts.items():
+                if c != want:
+                    ctx.corr["diffs"] += 1
+                    nbroken += 1
+                    if nbroken <= 10:
+                        ctx.proof["broken"].append({"theorem": "correspondence: C semantics model vs compiled C",
+                                                    "why": "%s(%s): Lean C model says `%s`, %s gives `%s`" % (r.ins, [hx(a) for a in args], cm, fl, c)})
+    dist["model"] = st
+
+
+def replay_witnesses(ctx, h, mods, flavours, dist):
+    """the operands of the `_full_false` theorems, through wazero and the compiled C"""
+    wpath = os.path.join(vlib.LEAN, "WaVerif", "Props", "C03Witnesses.json")
+    wit = json.load(open(wpath))
+    m = mods["int"][0]
+    byname = dict((r.name, r) for r in m.rows)
+    calls = [(byname[n], tuple(int(a, 16) for a in w["args"])) for n, w in sorted(wit.items()) if n in byname]
+    if not calls:
+        return
+    ref = run_ref(ctx, h, m, calls, "n")
+    res = dict((fl, run_c(m, m.exes[fl], calls, "n")) for fl in flavours)
+    dist["witnesses_replayed"] = len(calls)
+    confirmed = 0
+    for i, (r, args) in enumerate(calls):
+        bad = [(fl, res[fl][i]) for fl in flavours if not agree(r, ref[i], res[fl][i])]
+        if bad:
+            confirmed += 1
+            ctx.violation("%s:%s" % (r.key, R.operand_class(r, args)),
+                          "`%s` on (%s) [witness of theorem %s_full_false: %s]: WebAssembly gives `%s`, compiled C gives %s" % (
+                              r.ins, ", ".join("0x%x" % a for a in args), r.name, wit[r.name]["why"], ref[i], "; ".join("%s: `%s`" % b for b in bad)),
+                          {"wat": R.module_text([r]), "export": "f_" + r.name, "args_hex": [hx(a) for a in args], "wasm": ref[i],
+                           "c": dict((fl, res[fl][i]) for fl in flavours), "theorem": r.name + "_full_false"})
+        else:
+            ctx.proof["broken"].append({"theorem": r.name + "_full_false", "why": "the Lean witness (%s) is not observable as a difference in any compiled flavour %s: wasm `%s`" % (
+                [hx(a) for a in args], flavours, ref[i])})
+    dist["witnesses_confirmed_on_compiled_c"] = confirmed
+
+
+def run(ctx):
+    from tools import gen_c03_props as GP
+    h = ctx.build_harness("c03")
+    rows = R.all_rows()
+    dist, nontrivial, samples = {}, set(), []
+    thorough = ctx.tier == "thorough"
+    fl_int = ["gcc-O0", "gcc-O0-ubsan"] + (["clang-O2-ubsan", "gcc-O2"] if thorough else [])
+    fl_other = ["gcc-O0"] + (["clang-O2-ubsan", "gcc-O2"] if thorough else [])
+    is_int_const = lambda r: r.cls == "const" and r.result in ("i32", "i64")
+    mods = {}
+    mods["int"] = grid_module(ctx, h, "int", [r for r in rows if r.cls == "int" or is_int_const(r)], "n", fl_int, dist, nontrivial, samples)
+    mods["float"] = grid_module(ctx, h, "float", [r for r in rows if r.cls == "float" or (r.cls == "const" and not is_int_const(r))], "n", fl_other,
+                                dist, nontrivial, samples)
+    mods["mem"] = grid_module(ctx, h, "mem", [r for r in rows if r.cls == "mem"], "m", fl_other, dist, nontrivial, samples)
+    mods["grow"] = grid_module(ctx, h, "grow", R.GROW_ROWS, "g", fl_other, dist, nontrivial, samples,
+                               text_fn=lambda rs: "(module\n  (memory 1 %d)\n%s\n)\n" % (R.GROW_MAX, "\n".join("  " + r.wat() for r in rs)),
+                               pages=1, maxpages=R.GROW_MAX)
+    # ---- regenerated templates + proofs
+    tpls, names = regenerate_templates(ctx, mods)
+    dist["templates_modelled"] = len(names)
+    dist["templates_unmodelled"] = dict((t["name"], t["unmodelled"]) for t in tpls if "lean" not in t)
+    proved_rows = set()
+    for mod in GP.modules():
+        src = open(os.path.join(vlib.LEAN, mod.replace(".", "/") + ".lean")).read()
+        proved_rows |= set(re.findall(r"^theorem (\w+?)_(?:ok|partial) ", src, re.M))
+    want_rows = set(r.name for r in rows if r.name in names and GP.statement(r) is not None)
+    if proved_rows != want_rows:
+        ctx.proof["broken"].append({"theorem": "C03 template row set", "why": "rows with a modelled template differ from the rows the theorems cover: "
+                                    "no theorem for %s; theorem without template for %s (re-run tools/gen_c03_props.py)" % (
+                                        sorted(want_rows - proved_rows)[:8], sorted(proved_rows - want_rows)[:8])})
+    for mod in GP.modules():
+        ctx.prove(mod, allow_extra_axioms=BV_AX)
+    model = ctx.build_model("c03")
+    if model:
+        model_correspondence(ctx, model, mods, set(names), dist)
+    replay_witnesses(ctx, h, mods, fl_int, dist)
+    # ---- control flow / calls / tables / globals / data segments: hand-written modules, executed only
+    for tag in sorted(CORPUS_MODULES):
+        corpus_module(ctx, h, tag, fl_other, dist, nontrivial)
+    # ---- whole modules produced by the real compiler
+    cdir = os.path.join(vlib.VERIF, "corpus", "C03")
+    progs = [(f[:-3], os.path.join(cdir, f)) for f in sorted(os.listdir(cdir)) if f.endswith(".wa")]
+    ex = os.path.join(vlib.REPO, "waroot", "examples")
+    exnames = ["brainfuck", "copy", "eq", "strbytes", "struct", "short-var", "interface_named"]
+    for n in (exnames if thorough else exnames[:3]):
+        if os.path.exists(os.path.join(ex, n + ".wa")):
+            progs.append(("ex_" + n.replace("-", "_"), os.path.join(ex, n + ".wa")))
+    with cf.ThreadPoolExecutor(8) as pool:
+        pres = list(pool.map(lambda a: whole_program(ctx, h, a[0], a[1], fl_other), progs))
+    dist["whole_programs"] = {}
+    first_ok = None
+    for (name, path), r in zip(progs, pres):
+        dist["whole_programs"][name] = r["status"]
+        nontrivial.add(("program", name, r["status"]))
+        if r["status"] == "ok":
+            first_ok = first_ok or name
+        elif r["status"] == "c-error":
+            m = re.search(r"// (\S+)", r["detail"])
+            key = ("%s:c-does-not-compile" % m.group(1)) if (r["kind"] == "c-does-not-compile" and m) else "program:%s:%s" % (name, r["kind"])
+            ctx.violation(key, "whole module compiled from %s runs on the embedded runtime (output %r) but its wat2c C is unusable: %s" % (
+                os.path.basename(path), r["wasm_out"][:60], r["detail"]), {"program": open(path).read(), "detail": r["detail"], "wasm_out": r["wasm_out"]})
+        elif r["status"] in ("differs", "ub"):
+            ctx.violation("program:%s:%s" % (name, "ub:" + "/".join(sorted(set(r["ub"].values()))) if r["status"] == "ub" else "output-differs"),
+                          "whole module compiled from %s: %s" % (os.path.basename(path), r["detail"]),
+                          {"program": open(path).read(), "wasm_out": r["wasm_out"], "c_out": r["c_out"], "ub": r.get("ub")})
+        else:
+            ctx.notes.append("whole program %s: %s %s" % (name, r["status"], r.get("detail", "")[:200]))
+    if first_ok:
+        ok, detail = shipped_host_links(ctx, os.path.join(ctx.tmp, "prog_" + first_ok))
+        dist["shipped_native_host_links"] = ok
+        if not ok:
+            ctx.violation("native-host:missing-host-functions", "the translated module does not link against appbuild's own assets (native.cpp + native-js-host.cpp, "
+                          "as the generated CMakeLists.txt builds them): %s" % detail, {"program": first_ok, "link_errors": detail})
+    cov = {"evaluations": sum(v for k, v in dist.items() if k.startswith("calls_")) + len(progs), "distinct_nontrivial": len(nontrivial),
+           "rule": "per-instruction grid: distinct (instruction, operand class, WebAssembly outcome kind) triples over boundary x boundary operands "
+                   "(0, +-1, min, max, powers of two, counts at/over the width, divisors 0 and -1, NaN/inf/limits); corpus modules and whole programs: one case per (function|program, outcome)",
+           "samples": samples, "distribution": dist,
+           "c_flavours": {"integer rows": fl_int, "other rows / modules": fl_other},
+           "checker_cmd": "lake build " + " ".join(GP.modules()) + "  (in /verif/lean; then `#audit_module` on each, see lib/vlib.py prove())"}
+    return ctx.finish("translation_validation", cov,
+                      assumptions=["C semantics: LP64, two's complement, gcc/clang implementation-defined choices (modulo conversion to signed, arithmetic >> of negatives)",
+                                   "wat2c's trap convention is abort(); a SIGFPE/SIGSEGV raised by the hardware for C-undefined code is NOT counted as a WebAssembly trap",
+                                   "wazero (vendored) is the WebAssembly reference for execution; Base/WasmNum.lean for the theorems (both compared on the grid)",
+                                   "float rows, control flow, calls, load/store and whole modules are executed only, never proved"],
+                      trusted_base=["bv_decide native axioms (Lean.ofReduceBool / trustCompiler) on the row theorems",
+                                    "extract/c03_templates.py (statement cutter + C expression parser) and gcc -E (macro expansion)",
+                                    "Model/C03CExpr.lean (C11 semantics of the emitted forms) and Base/WasmNum.lean, cross-validated by the grid run",
+                                    "gcc 12 / clang 14 and their UB sanitizers, vendored wazero"])
